@@ -1383,7 +1383,15 @@ class Interp:
                 r = b._attrs["__contains__"](a)
             elif isinstance(b, (tuple, list, set, dict, str, frozenset)):
                 if not is_concrete(a) and not isinstance(a, str):
-                    self.fail(node, "membership test of a symbolic value")
+                    # symbolic value against a literal sequence: `a == b0 or a == b1 ...`, each decided like a comparison
+                    if not isinstance(b, (tuple, list)) or not isinstance(a, sp.Basic):
+                        self.fail(node, "membership test of a symbolic value")
+                    r = False
+                    for item in b:
+                        if self.truth(self.compare(ast.Eq(), a, item, node), node):
+                            r = True
+                            break
+                    return r if t is ast.In else not r
                 r = to_py(a) in b
             else:
                 self.fail(node, f"membership test in {b!r}")
